@@ -5,7 +5,9 @@ From Fabio Require Import Lib.Verdict Model.Shutdown Proofs.Shutdown.
 Import ListNotations.
 Local Open Scope N_scope.
 
-Definition L (k : kind) (ds : list dur) : leaf := {| lkind := k; litems := ds |}.
+Definition L (k : kind) (ds : list dur) : leaf := mkleaf k ds.
+(* a TCP listener with connections whose handler is stuck (observations: items first, then these) *)
+Definition LS (ds stuck : list dur) : leaf := {| lkind := KTcp; litems := ds; lstuck := stuck |}.
 
 (* what the client of one in-flight item saw *)
 Inductive obs :=
@@ -68,7 +70,7 @@ Definition item_ok (wait : N) (impl_T : option N) (d : dur) (o : obs) : bool :=
 Definition spec_impl (wait : N) (srvs : list server) (impl_T : option N)
            (acc1 acc2 : list bool) (impl : list (list (list obs))) : bool :=
   forallb negb acc1 && forallb negb acc2
-  && all2 (fun s os => all2 (fun l o => all2 (item_ok wait impl_T) (litems l) o) (leaves s) os) srvs impl
+  && all2 (fun s os => all2 (fun l o => all2 (item_ok wait impl_T) (litems l ++ map (fun _ => Inf) (lstuck l)) o) (leaves s) os) srvs impl
   && match impl_T with Some T => T <=? wait + spec_slack | None => false end.
 
 (* finding region 1 (F-C18-1): a gRPC stream outlives the wait = [over_wait] of
@@ -82,10 +84,10 @@ Definition check_case (c : case) : N :=
         ret_matches lo hi (g_ret g) impl_T
         && all2 (fun r a => Bool.eqb (server_accepts r probe_at) a) (g_servers g) acc1
         && all2 (fun r a => Bool.eqb (server_accepts r probe_at) a) (g_servers g) acc2
-        && all2 (fun r os => all2 (fun lr o => all2 (fate_matches lo hi) (r_fates lr) o) (s_leaves r) os)
+        && all2 (fun r os => all2 (fun lr o => all2 (fate_matches lo hi) (r_fates lr ++ r_stuck lr) o) (s_leaves r) os)
                 (g_servers g) impl in
       let spec := spec_impl wait srvs impl_T acc1 acc2 impl in
       let region := if over_wait wait srvs then Some 1 else None in
-      let nontriv := existsb (fun s => existsb (fun l => negb (match litems l with [] => true | _ => false end)) (leaves s)) srvs in
+      let nontriv := existsb (fun s => existsb (fun l => negb (match litems l ++ lstuck l with [] => true | _ => false end)) (leaves s)) srvs in
       verdict same spec region nontriv
   end.
